@@ -228,17 +228,28 @@ func c13RunHp(t *testing.T, stats *VStats) {
 				if rr.Chance(0.1) {
 					src, dst = srcs[rr.Intn(len(srcs))], dsts[rr.Intn(len(dsts))]
 				}
-				fd := UdpFlowDecision{Key: NewUdpFlowKey(src, dst), AllowsSniffing: udpFlowAllowsSniffing(src, dst)}
-				fd.SnifferKey = fd.Key.PacketSnifferKey()
+				// the packet's classification comes from the production classifier (payload: plain bytes or
+				// something that looks like a QUIC Initial); whether a sniffer session exists for the flow
+				// is the one input set by hand
+				x := rr.Intn(4)
+				payload, ptok := []byte{1, 2, 3, 4, 5, 6, 7, 8}, "plain"
+				if x == 0 || x == 2 {
+					payload, ptok = []byte{0xC0, 0, 0, 0, 1, 8, 1, 2, 3, 4, 5, 6, 7, 8, 0}, "quic"
+				}
+				fd := ClassifyUdpFlow(src, dst, payload)
+				s.Emit(fmt.Sprintf("hp classify %s %s %s", c13ApTok(src), c13ApTok(dst), ptok),
+					fmt.Sprintf("al=%s qi=%s hs=%s sameKey=%s", c13B(fd.AllowsSniffing), c13B(fd.IsQuicInitial), c13B(fd.HasSnifferSession),
+						c13B(fd.Key == NewUdpFlowKey(src, dst))))
+				stats.Inc("hp.classify." + ptok)
 				cls := "plain"
 				if fd.AllowsSniffing {
-					switch rr.Intn(4) {
+					switch x {
 					case 0:
-						fd.IsQuicInitial, cls = true, "initial"
+						cls = "initial"
 					case 1:
 						fd.HasSnifferSession, cls = true, "session"
 					case 2:
-						fd.IsQuicInitial, fd.HasSnifferSession, cls = true, true, "initial+session"
+						fd.HasSnifferSession, cls = true, "initial+session"
 					}
 				} else {
 					cls = "notEligible"
